@@ -179,7 +179,11 @@ func (e *enc) syncCall(ins ssa.Instruction, key string, args []string, argVals [
 	rheld := func() string { return fmt.Sprintf("(select %s %s)", e.heldArr("G_rheld"), m) }
 	switch kind {
 	case "lock":
-		e.addI("lock", "no-self-deadlock", ins, R, fmt.Sprintf("(and (not %s) (not %s))", held(), rheld()))
+		if strings.Contains(key, "RWMutex") {
+			e.addI("lock", "no-self-deadlock", ins, R, fmt.Sprintf("(and (not %s) (not %s))", held(), rheld()))
+		} else {
+			e.addI("lock", "no-self-deadlock", ins, R, fmt.Sprintf("(not %s)", held()))
+		}
 		e.interference()
 		e.setHeld("G_held", m, true)
 		e.lockUses = append(e.lockUses, lockUse{m, "G_held"})
@@ -245,6 +249,9 @@ func (e *enc) callHook(ins ssa.Instruction, key string, callee *ssa.Function, R 
 // returnHook: lock balance — every lock this function touched is in the state it was found in.
 func (e *enc) returnHook(b *ssa.BasicBlock, r *ssa.Return, R string) {
 	e.invReturnObls(r, R)
+	if e.fc != nil && e.fc.Opts["lock-effect"] != "" {
+		return // the contract's ensures describe how the lock set changes (e.g. a deferred release)
+	}
 	seen := map[string]bool{}
 	for _, u := range e.lockUses {
 		k := u.arr + u.term
